@@ -19,7 +19,7 @@ pub const S1: &[&str] = &[
 pub const S2: &[&str] = &[
     "%m", "%n", "(", ")", ",", "=", " ", "\n", "a", "1", "&v", "&v.", "&", "%str", "%nrstr",
     "%upcase", "%scan", "'", "\"", "/*c*/", "%*", ";", "%", "%%", "%(", "%)", "/", "%let ",
-    "%macro ", "%if ",
+    "%macro ", "%if ", "%*c;",
 ];
 
 pub const S3: &[&str] = &[
@@ -36,7 +36,7 @@ pub const S4: &[&str] = &[
 pub const S5: &[&str] = &[
     " ", "\n", "a", "x", "e", "d", "b", "t", "n", "f", "_", "1", "0", "9", ".", "'", "\"", ";",
     "/", "*", "&", "%", "=", "<", ">", "!", "|", "¦", "^", "¬", "$", "(", ")", ",", ":", "+", "-",
-    "{", "#", "@", "?", "\\", "é", "€", "\u{a0}", "datalines", "cards4", ";;;;", "data", "eq",
+    "{", "#", "@", "?", "\\", "é", "€", "\u{a0}", "datalines", "cards4", ";;;;", "data", "eq", "\0",
 ];
 
 /// S5 without the five least connected atoms (thorough tier at N = 5)
@@ -62,7 +62,7 @@ pub const S8: &[&str] = &[
 /// 20 well connected atoms used inside nesting prefixes (seeded spaces)
 pub const SEED_ATOMS: &[&str] = &[
     "%m", "(", ")", ",", "=", ";", " ", "\n", "a", "1", "&v", "\"", "'", "/*c*/", "%", "%let ",
-    "%do", "%end", "%str(", "*",
+    "%do", "%end", "%str(", "*", "%*c;",
 ];
 
 /// nesting prefixes and closers (DESIGN 1.3 item 2)
@@ -232,7 +232,37 @@ pub fn boundary_atoms() -> Vec<String> {
         "&v".to_string(),
         "1".to_string(),
         "\"".to_string(),
+        // the cursor's end-of-input sentinel is '\0': a real NUL in the text must stay a character
+        "\0".to_string(),
     ]
+}
+
+/// atoms of macro expressions, explored inside every expression host (operators glued to
+/// operands, to macro variable terminators, to parentheses ...)
+pub const EXPR_ATOMS: &[&str] = &[
+    "&v.", "&v", "eq", "ne ", "and ", "not ", "in ", "or", "ge", "1", "a", " ", "+", "(", ")", "%m", "'s'", ",", ";",
+    "=", "%", "<", "*", "/", "1.5", "0fx", "\n", "/*c*/",
+];
+
+pub const EXPR_HOSTS: &[(&str, &str)] = &[
+    ("%eval(", ")"),
+    ("%sysevalf(", ")"),
+    ("%if ", " %then;"),
+    ("%do i=", " %to 2; %end;"),
+    ("%do i=1 %to ", ";"),
+    ("%do %while(", ");"),
+    ("%sysfunc(f(", "))"),
+    ("%scan(a,", ")"),
+    ("%substr(a,1,", ")"),
+    ("%let x=%eval(", ");"),
+];
+
+pub fn expr_spaces(n: usize) -> Vec<Space> {
+    EXPR_HOSTS
+        .iter()
+        .enumerate()
+        .map(|(i, (p, s))| Space::seeded(&format!("expr{i:02}[{}..{}]", p.escape_debug(), s.escape_debug()), p, s, EXPR_ATOMS, n))
+        .collect()
 }
 
 pub fn boundary_spaces(n: usize) -> Vec<Space> {
@@ -323,6 +353,7 @@ pub fn sigma_spaces(which: &[&str], tier: Tier) -> Vec<Space> {
             "seeded" => {
                 v.extend(seeded_spaces(if q { 3 } else { 4 }));
                 v.extend(boundary_spaces(if q { 3 } else { 4 }));
+                v.extend(expr_spaces(if q { 3 } else { 4 }));
             }
             other => panic!("unknown space {other}"),
         }
